@@ -88,10 +88,16 @@ def jIdent (j : Json) : Except String SqlglotModel.Ident.Ident := do
 def jIdents (j : Json) : Except String (List SqlglotModel.Ident.Ident) := do
   (← j.getArr?).toList.mapM jIdent
 
+def jImplicit (j : Json) : Except String (List (Nat × String)) := do
+  (← j.getArr?).toList.mapM fun e => do
+    let a ← e.getArr?
+    if h : a.size = 2 then pure (← a[0].getNat?, ← a[1].getStr?) else throw "implicit"
+
 def jDef (j : Json) : Except String KeyedDef := do
   let key ← jIdents (← j.getObjVal? "key")
   let scopes ← (← (← j.getObjVal? "scopes").getArr?).toList.mapM jScope
-  pure ⟨key, scopes⟩
+  let implicit ← jImplicit (← j.getObjVal? "implicit")
+  pure { key := key, scopes := scopes, implicit := implicit }
 
 def jRef (j : Json) : Except String (String × List SqlglotModel.Ident.Ident) := do
   let a ← j.getArr?
@@ -111,8 +117,11 @@ def handle (line : String) : Except String String := do
         | none => throw "strategy"
       -- keys go through as many normalisation passes as the current source applies (Generated.keyNormalisations)
       let look := lookupKeyed SqlglotModel.Ident.asciiFns strat SqlglotModel.Generated.C17.keyNormalisations defs refs
-      let ex := expandQ expandTag look (defs.length + 1) scopes0
-      let il := expandQ (fun _ => none) look (defs.length + 1) scopes0
+      let implicit ← jImplicit (← j.getObjVal? "implicit")
+      -- the alias of a replacing derived table follows the expression the current source uses
+      let al := expandAlias SqlglotModel.Generated.C17.expandAliasVariant SqlglotModel.Ident.asciiFns strat
+      let ex := expandQA expandTag al look (defs.length + 1) implicit scopes0
+      let il := expandQA (fun _ => none) al look (defs.length + 1) implicit scopes0
       let cfgI : Cfg := ⟨SqlglotModel.Generated.C17.keyComps, true⟩
       pure (ex.1, ex.2, cols.map fun c => leavesJson (lineageOne cfgI il.1 il.2 c).1.leaves)
     | .error _ => do
